@@ -921,7 +921,16 @@ impl BitOut {
         let mask = if n >= 64 { u64::MAX } else { (1u64 << n) - 1 };
         self.put(n, (v as u64) & mask);
     }
-    pub fn unary(&mut self, q: u64) {
+    pub fn unary(&mut self, mut q: u64) {
+        while q > 0 && self.nbits % 8 != 0 {
+            self.put(1, 0);
+            q -= 1;
+        }
+        while q >= 8 {
+            self.bytes.push(0);
+            self.nbits += 8;
+            q -= 8;
+        }
         for _ in 0..q {
             self.put(1, 0);
         }
@@ -952,12 +961,44 @@ pub enum SubSpec {
     Lpc { order: u32, warm_up: Vec<i64>, precision: u32, shift: u32, coefs: Vec<i64>, method1: bool, parts: Vec<PartSpec> },
 }
 
+/// deliberate deviations from the grammar, for checksum-valid malformed frames; all default to None
+#[derive(Debug, Clone, Default)]
+pub struct Bend {
+    /// 6-bit subframe type code written instead of the one the body implies
+    pub type_code: Option<u8>,
+    /// subframe header padding bit
+    pub pad_bit: Option<u8>,
+    /// 2-bit residual coding method code
+    pub method_code: Option<u8>,
+    /// 4-bit partition order written instead of log2(number of partitions)
+    pub porder: Option<u32>,
+    /// 4-bit LPC precision code
+    pub precision_code: Option<u8>,
+    /// 5-bit raw LPC shift field
+    pub shift_raw: Option<u8>,
+    /// number of bits each warm-up / verbatim / constant sample is written with
+    pub sample_bits: Option<u32>,
+}
+
 #[derive(Debug, Clone)]
 pub struct SubframeSpec {
     /// subframe bit depth before wasted bits are removed (frame depth, +1 for a side channel)
     pub bits: u32,
     pub wasted: u32,
     pub body: SubSpec,
+    pub bend: Bend,
+}
+
+#[derive(Debug, Clone, Default)]
+pub struct HeaderBend {
+    pub sync: Option<u16>,
+    pub bs_code: Option<u8>,
+    pub reserved_bit: Option<u8>,
+    /// raw bytes written instead of the coded number
+    pub number_bytes: Option<Vec<u8>>,
+    /// value written in the 8/16-bit block size extension
+    pub bs_ext: Option<u32>,
+    pub footer_pad_ones: bool,
 }
 
 #[derive(Debug, Clone)]
@@ -969,6 +1010,7 @@ pub struct FrameSpec {
     pub bps_code: u8,
     pub number: u64,
     pub subs: Vec<SubframeSpec>,
+    pub bend: HeaderBend,
 }
 
 fn put_coded_number(o: &mut BitOut, v: u64) {
@@ -996,9 +1038,9 @@ fn put_coded_number(o: &mut BitOut, v: u64) {
     }
 }
 
-fn put_residual(o: &mut BitOut, method1: bool, parts: &[PartSpec]) {
-    o.put(2, method1 as u64);
-    o.put(4, parts.len().trailing_zeros() as u64);
+fn put_residual(o: &mut BitOut, method1: bool, parts: &[PartSpec], bend: &Bend) {
+    o.put(2, bend.method_code.map(|m| m as u64).unwrap_or(method1 as u64));
+    o.put(4, bend.porder.map(|p| p as u64).unwrap_or(parts.len().trailing_zeros() as u64));
     let pbits = if method1 { 5 } else { 4 };
     let esc = (1u64 << pbits) - 1;
     for p in parts {
@@ -1029,9 +1071,9 @@ fn put_residual(o: &mut BitOut, method1: bool, parts: &[PartSpec]) {
 /// serialises one frame exactly as RFC 9639 section 9 lays it out
 pub fn write_frame(f: &FrameSpec) -> Vec<u8> {
     let mut o = BitOut::new();
-    o.put(15, 0b111111111111100);
+    o.put(15, f.bend.sync.map(|s| s as u64).unwrap_or(0b111111111111100));
     o.put(1, 0); // fixed block size stream
-    let bs_code: u64 = match f.block_size {
+    let natural_bs_code: u64 = match f.block_size {
         192 => 1,
         576 => 2,
         1152 => 3,
@@ -1048,35 +1090,50 @@ pub fn write_frame(f: &FrameSpec) -> Vec<u8> {
         n if n <= 256 => 6,
         _ => 7,
     };
+    let bs_code = f.bend.bs_code.map(|c| c as u64).unwrap_or(natural_bs_code);
     o.put(4, bs_code);
     o.put(4, f.rate_code as u64);
     o.put(4, f.assignment as u64);
     o.put(3, f.bps_code as u64);
-    o.put(1, 0);
-    put_coded_number(&mut o, f.number);
+    o.put(1, f.bend.reserved_bit.unwrap_or(0) as u64);
+    match &f.bend.number_bytes {
+        Some(b) => {
+            for x in b {
+                o.put(8, *x as u64);
+            }
+        }
+        None => put_coded_number(&mut o, f.number),
+    }
+    let ext = f.bend.bs_ext.unwrap_or(f.block_size.wrapping_sub(1)) as u64;
     match bs_code {
-        6 => o.put(8, (f.block_size - 1) as u64),
-        7 => o.put(16, (f.block_size - 1) as u64),
+        6 => o.put(8, ext & 0xFF),
+        7 => o.put(16, ext & 0xFFFF),
+        _ => {}
+    }
+    match f.rate_code {
+        12 => o.put(8, 44),
+        13 => o.put(16, 44100),
+        14 => o.put(16, 4410),
         _ => {}
     }
     let c8 = crc8(&o.bytes);
     o.put(8, c8 as u64);
     for s in &f.subs {
-        o.put(1, 0);
-        let ty: u64 = match &s.body {
+        o.put(1, s.bend.pad_bit.unwrap_or(0) as u64);
+        let natural_ty: u64 = match &s.body {
             SubSpec::Constant { .. } => 0,
             SubSpec::Verbatim { .. } => 1,
             SubSpec::Fixed { order, .. } => 8 + *order as u64,
             SubSpec::Lpc { order, .. } => 31 + *order as u64,
         };
-        o.put(6, ty);
+        o.put(6, s.bend.type_code.map(|t| t as u64).unwrap_or(natural_ty) & 0x3F);
         if s.wasted > 0 {
             o.put(1, 1);
             o.unary(s.wasted as u64 - 1);
         } else {
             o.put(1, 0);
         }
-        let eb = s.bits - s.wasted;
+        let eb = s.bend.sample_bits.unwrap_or(s.bits.saturating_sub(s.wasted));
         match &s.body {
             SubSpec::Constant { sample } => o.put_signed(eb, *sample),
             SubSpec::Verbatim { samples } => {
@@ -1088,19 +1145,24 @@ pub fn write_frame(f: &FrameSpec) -> Vec<u8> {
                 for v in warm_up {
                     o.put_signed(eb, *v);
                 }
-                put_residual(&mut o, *method1, parts);
+                put_residual(&mut o, *method1, parts, &s.bend);
             }
             SubSpec::Lpc { warm_up, precision, shift, coefs, method1, parts, .. } => {
                 for v in warm_up {
                     o.put_signed(eb, *v);
                 }
-                o.put(4, (*precision - 1) as u64);
-                o.put(5, *shift as u64);
+                o.put(4, s.bend.precision_code.map(|c| c as u64).unwrap_or((*precision - 1) as u64));
+                o.put(5, s.bend.shift_raw.map(|c| c as u64).unwrap_or(*shift as u64));
                 for c in coefs {
                     o.put_signed(*precision, *c);
                 }
-                put_residual(&mut o, *method1, parts);
+                put_residual(&mut o, *method1, parts, &s.bend);
             }
+        }
+    }
+    if f.bend.footer_pad_ones {
+        while o.nbits % 8 != 0 {
+            o.put(1, 1);
         }
     }
     o.align();
